@@ -282,7 +282,10 @@ func c14Parse(s string) (wire.Message, error) {
 
 // ---- generator ----
 
-type c14gen struct{ r *rand.Rand }
+type c14gen struct {
+	r          *rand.Rand
+	forceCount int // >= 0: every list gets exactly this many elements
+}
 
 func (g *c14gen) pick64(vals ...uint64) uint64 {
 	if g.r.Intn(3) == 0 {
@@ -358,6 +361,9 @@ func (g *c14gen) na(carriesTS bool, allowBad bool) wire.NetAddress {
 
 // count for a list with per-message limit max; big: allow counts near the limit
 func (g *c14gen) count(max int, big bool) int {
+	if g.forceCount >= 0 {
+		return g.forceCount
+	}
 	k := g.r.Intn(100)
 	switch {
 	case k < 10:
